@@ -226,6 +226,12 @@ func runCluster(prop string) *ShardResult {
 		}
 	}
 	deadline := time.Now().Add(*fBudget)
+	sweepDeadline := deadline
+	if prop == "C17" {
+		// the search for histories that end in reports gets half of the time, the mutation sweep over them
+		// (shortest histories first) the other half
+		deadline = time.Now().Add(*fBudget / 2)
+	}
 	alpha := clusterAlphabet(nodes)
 	res.Bounds["nodes"] = nodes
 	res.Bounds["depth"] = depth
@@ -306,7 +312,7 @@ func runCluster(prop string) *ShardResult {
 		res.Sets["states"] = append(res.Sets["states"], k)
 	}
 	if prop == "C17" {
-		mutationSweep(res, nodes, checkpointHists, deadline, addF)
+		mutationSweep(res, nodes, checkpointHists, sweepDeadline, addF)
 	}
 	return res
 }
@@ -336,6 +342,9 @@ func mutationSweep(res *ShardResult, nodes int, hists [][]core.VEvent, deadline 
 					fields := mutFields
 					if where == "rest" {
 						fields = append(append([]string{}, mutFields...), "index+1", "swap")
+						if idx+1 < ri.end {
+							fields = append(fields, "xchg") // this entry and the next one returned in each other's place
+						}
 					}
 					for _, f := range fields {
 						n++
